@@ -23,8 +23,9 @@ instantiated with the model's `iand`, `ior`, `inot` (`inot a = 1 - a`, the compl
 `inot_faithful` shows it agrees with the 64-bit complement wherever the covered code uses it, namely
 as an operand of `&` with a 0/1 value).
 
-Not covered (control flow; hand-modelled, tied by the C15 correspondence run): FromJacobian (branch
-on z = 0), NewPoint/ToBig (big.Int), lookupTable.Init/SelectInto, ScalarMult, ScalarBaseMult.
+`FromJacobian` (one early-return branch on z = 0) is regenerated as three sequences; the tables are in
+GoatProofs.C15TblOps.  Not covered: NewPoint/ToBig (math/big calls, no field-method sequence), the
+scalar-multiplication loops.
 -/
 namespace C15PtOps
 open Model.K1Pt
@@ -68,7 +69,7 @@ def jpt (e : Env Limbs) : Jac := ⟨e.fe 0, e.fe 1, e.fe 2⟩
 def coords (p : Jac) : List Limbs := [p.x, p.y, p.z]
 
 namespace G
-export Gen.PtOps256 (isOnCurve jzero jset jselect fromAffine jequal jdouble jadd)
+export Gen.PtOps256 (isOnCurve jzero jset jselect fromAffine jequal jdouble jadd fromJacobianCond fromJacobianThen fromJacobianElse)
 end G
 
 /-- generalise the field functions (see Lemmas/PtOpsTac.lean) -/
@@ -152,6 +153,28 @@ theorem jadd_ops (p a b : Jac) : jadd a b = jpt (run G.jadd (coords p ++ coords 
     gen_fe256
     as_aux_lemma => rfl
 
+/-- the affine receiver after the call: variables 0, 1 -/
+def apt (e : Env Limbs) : Point := ⟨e.fe 0, e.fe 1⟩
+
+/-- `(*Point).FromJacobian(v)`: `if v.z.Equal(&feZero) == 1 { p.x.Zero(); p.y.Zero(); return p }`, then the
+    inversion path — the function is regenerated as three sequences (condition, branch, rest) split at
+    its one early return (`fromJacobian_facts` pins the branch text) -/
+theorem fromJacobian_ops (p : Point) (v : Jac) :
+    fromJacobian v =
+      if (run G.fromJacobianCond [p.x, p.y, v.x, v.y, v.z, feZero]).int 6 == 1
+      then apt (run G.fromJacobianThen [p.x, p.y, v.x, v.y, v.z])
+      else apt (run G.fromJacobianElse [p.x, p.y, v.x, v.y, v.z]) := by
+  ptops_named "C15PtOps.fromJacobian_ops" =>
+    have h : (run G.fromJacobianCond [p.x, p.y, v.x, v.y, v.z, feZero]).int 6
+        = PtOps.ieq ((run G.fromJacobianCond [p.x, p.y, v.x, v.y, v.z, feZero]).int 7) 1 := by
+      unfold run ops
+      gen_fe256
+      as_aux_lemma => rfl
+    rw [h, ieq_one]
+    unfold fromJacobian run ops
+    gen_fe256
+    as_aux_lemma => rfl
+
 /-! ### layout, guards, hazards, well-formedness of the regenerated data -/
 
 theorem isOnCurve_facts :
@@ -199,10 +222,21 @@ theorem jadd_facts :
     ∧ G.jadd.guards = [] ∧ G.jadd.hazards = [] ∧ G.jadd.wf = true := by
   ptops_decide "C15PtOps.jadd_facts"
 
+theorem fromJacobian_facts :
+    G.fromJacobianCond.inputs = ["p.x", "p.y", "v.x", "v.y", "v.z", "feZero"]
+    ∧ G.fromJacobianCond.outputs = ["return"] ∧ G.fromJacobianCond.outIds = [6]
+    ∧ G.fromJacobianCond.facts = [("branch", "if v.z.Equal(&feZero) == 1 { …; return }")]
+    ∧ G.fromJacobianThen.inputs = ["p.x", "p.y", "v.x", "v.y", "v.z"] ∧ G.fromJacobianThen.outIds = [0, 1]
+    ∧ G.fromJacobianElse.inputs = ["p.x", "p.y", "v.x", "v.y", "v.z"] ∧ G.fromJacobianElse.outIds = [0, 1]
+    ∧ G.fromJacobianCond.hazards = [] ∧ G.fromJacobianThen.hazards = [] ∧ G.fromJacobianElse.hazards = []
+    ∧ G.fromJacobianCond.wf = true ∧ G.fromJacobianThen.wf = true ∧ G.fromJacobianElse.wf = true := by
+  ptops_decide "C15PtOps.fromJacobian_facts"
+
 /-- the covered functions are the ones proved here; no sequence reaches a dummy field of `ops` -/
 theorem covered :
     Gen.PtOps256.covered = ["IsOnCurve", "PointJacobian.Zero", "PointJacobian.Set", "PointJacobian.Select",
-      "PointJacobian.FromAffine", "PointJacobian.Equal", "PointJacobian.Double", "PointJacobian.Add"]
+      "PointJacobian.FromAffine", "PointJacobian.Equal", "PointJacobian.Double", "PointJacobian.Add",
+      "Point.FromJacobian [if.cond]", "Point.FromJacobian [if.then]", "Point.FromJacobian [if.else]"]
     ∧ Gen.PtOps256.all.all (fun f => !f.usesOp fun o => o == .mul32 || o == .isNegative || o == .ixor) = true := by
   ptops_decide "C15PtOps.covered"
 
